@@ -12,7 +12,7 @@ from __future__ import annotations
 import ast
 
 from ..core import UNKNOWN, AnalysisError, FuncInfo, call_name, enclosing_stmt, get_arg, is_self_attr, norm, parent, walk_no_nested
-from ..paths import calls, cfg_of, enclosing_loops, guarded_not_none, node_of, structural_guards
+from ..paths import calls, canon, cfg_of, enclosing_loops, guarded_not_none, node_of, structural_guards
 
 EXPLANATION = (
     "Path queries (dominators / must-pass-through on a statement CFG built from the current source) over "
@@ -104,7 +104,7 @@ def r03b(ctx):
     f = repo.func("Document.save")
     cfg = cfg_of(f)
     loops = _flush_loops(f)
-    saves = calls(f, lambda c: call_name(c) == "save" and isinstance(c.func, ast.Attribute) and "container" in ast.unparse(c.func.value))
+    saves = calls(f, lambda c: call_name(c) == "save" and isinstance(c.func, ast.Attribute) and "container" in canon(f, c.func.value))
     if not saves:
         ctx.instance("R03b", f"{f.file}:{f.ident}", "container.save is called", ok=False)
         ctx.report("R03b", f, f.node, "Document.save does not call container.save", "Document.save no longer hands the flushed parts to container.save")
@@ -207,7 +207,7 @@ def r03d(ctx):
     ctx.rule("R03d", "raw write of an XML part drops the parsed copy; no statement without effect", floor=1)
     f = repo.func("Document.set_part")
     cfg = cfg_of(f)
-    sp = calls(f, lambda c: call_name(c) == "set_part" and "container" in ast.unparse(c.func))
+    sp = calls(f, lambda c: call_name(c) == "set_part" and "container" in canon(f, c.func))
     if not sp:
         raise AnalysisError("R03d: container.set_part not found in Document.set_part")
     drops = []
@@ -222,7 +222,7 @@ def r03d(ctx):
     ok = False
     for d in drops:
         guards = structural_guards(d, stop=f.node)
-        if any("cls" in ast.unparse(t) or "_get_part_class" in ast.unparse(t) for t, _ in guards) or not guards:
+        if any("_get_part_class" in canon(f, t_) for t, _ in guards for t_ in ast.walk(t) if isinstance(t_, (ast.Name, ast.Call))) or not guards:
             dn, sn = node_of(cfg, d), node_of(cfg, sp[0])
             # on the XML-part branch the drop precedes the raw write
             if cfg.path_avoiding(dn, sn, [], follow_exc=True) is not None:
